@@ -9,6 +9,8 @@ import (
 	"math"
 	"sort"
 
+	"github.com/ethereum/go-ethereum/rlp"
+
 	"github.com/Fantom-foundation/lachesis-base/inter/idx"
 	"github.com/Fantom-foundation/lachesis-base/inter/pos"
 	"verif/core"
@@ -248,6 +250,77 @@ func main() {
 		walk()
 		c.Count("counter_sequences", nseq)
 		c.Count("evaluations", nseq)
+
+		// the same set reached on other routes: after the next epoch's validators were derived from it (a built set
+		// is read-only), and decoded from a wire list that is not in canonical order / lists a validator twice
+		// (the last entry wins, as with Set): quorum, total, per-subset quorum test and the whole-set count again
+		recheck := func(v2 *pos.Validators, how string) {
+			pv := core.Catch(func() {
+				if int(v2.Len()) != n || uint64(v2.TotalWeight()) != T || uint64(v2.Quorum()) != 2*T/3+1 {
+					c.Violation("quorum-formula/"+how, ws, "weights %v %s: Len=%d total=%d quorum=%d", ws, how, v2.Len(), v2.TotalWeight(), v2.Quorum())
+					return
+				}
+				for i := 0; i < n; i++ {
+					if v2.GetID(idx.Validator(i)) != vv.GetID(idx.Validator(i)) || v2.GetWeightByIdx(idx.Validator(i)) != vv.GetWeightByIdx(idx.Validator(i)) || v2.Get(vv.GetID(idx.Validator(i))) != vv.GetWeightByIdx(idx.Validator(i)) {
+						c.Violation("canonical-order/"+how, ws, "weights %v %s: position %d holds (%d,%d)", ws, how, i, v2.GetID(idx.Validator(i)), v2.GetWeightByIdx(idx.Validator(i)))
+						return
+					}
+				}
+				for mask := 0; mask < 1<<uint(n); mask++ {
+					cnt := v2.NewCounter()
+					for i := 0; i < n; i++ {
+						if mask&(1<<uint(i)) != 0 {
+							if mask&1 == 0 {
+								cnt.CountByIdx(idx.Validator(i))
+							} else {
+								cnt.Count(v2.GetID(idx.Validator(i)))
+							}
+						}
+					}
+					if uint64(cnt.Sum()) != sums[mask] || cnt.HasQuorum() != has[mask] {
+						c.Violation("counter-quorum/"+how, ws, "weights %v %s subset %b: Sum=%d HasQuorum=%v, want %d %v", ws, how, mask, cnt.Sum(), cnt.HasQuorum(), sums[mask], has[mask])
+						return
+					}
+				}
+			})
+			if pv != nil {
+				c.Violation("panic/"+how, ws, "weights %v %s: %v", ws, how, pv)
+			}
+			c.Count("evaluations", int64(1)<<uint(n))
+		}
+		for _, src := range []string{"Builder()", "Copy().Builder()"} {
+			nb := vv.Builder()
+			if src != "Builder()" {
+				nb = vv.Copy().Builder()
+			}
+			nb.Set(vv.GetID(0), 0)
+			nb.Set(777, 1)
+			core.Catch(func() { nb.Build() })
+			recheck(vv, "after deriving the next set through "+src)
+		}
+		type wire struct {
+			ID     idx.ValidatorID
+			Weight pos.Weight
+		}
+		var rev, dup []wire
+		for i := n - 1; i >= 0; i-- {
+			rev = append(rev, wire{vv.GetID(idx.Validator(i)), vv.GetWeightByIdx(idx.Validator(i))})
+		}
+		dup = append(dup, wire{vv.GetID(idx.Validator(n - 1)), 1})
+		for i := 0; i < n; i++ {
+			dup = append(dup, wire{vv.GetID(idx.Validator(i)), vv.GetWeightByIdx(idx.Validator(i))})
+		}
+		for how, list := range map[string][]wire{"decoded from a reversed wire list": rev, "decoded from a wire list naming a validator twice": dup} {
+			enc, err := rlp.EncodeToBytes(list)
+			var dec pos.Validators
+			if err == nil {
+				err = rlp.DecodeBytes(enc, &dec)
+			}
+			if err != nil {
+				continue // refusing such a list is fine
+			}
+			recheck(&dec, how)
+		}
 	})
 	// part 3: large sets (the counter's "already counted" bookkeeping crosses machine-word boundaries): every
 	// pair of calls (i, j) by index and by ID on a fresh counter, and full passes in both directions followed
